@@ -12,10 +12,13 @@
 package main
 
 import (
+	"bufio"
 	"bytes"
 	"context"
 	"encoding/binary"
 	"fmt"
+	"github.com/TarsCloud/TarsGo/tars/protocol/push"
+	"io"
 	"net"
 	"os"
 	"os/exec"
@@ -282,7 +285,55 @@ func genCases(seed int64, thorough bool, tis []*tinfo) []hcase {
 			cases = append(cases, hcase{entry: e, ti: reqT, kind: fmt.Sprintf("short-frame-%d", len(fb)), what: fmt.Sprintf("frame of %d bytes", len(fb)), bytes: fb})
 		}
 	}
+	cases = append(cases, semanticCases(reqT)...)
 	return cases
+}
+
+// semanticCases: well-formed request packets whose FIELD VALUES are hostile — the values the
+// server interprets before (or instead of) dispatching: message-type bits with the status entries
+// they make the server parse (dyeing key, trace key, ...), versions, packet types, timeouts,
+// servant and function names.  A packet that decodes fine must not kill the process either.
+func semanticCases(reqT *tinfo) []hcase {
+	var cases []hcase
+	add := func(kind, what string, rq *netlab.Request) {
+		f := rq.Encode()
+		cases = append(cases, hcase{entry: "invoke", ti: reqT, kind: kind, what: what, bytes: f})
+		cases = append(cases, hcase{entry: "invoketimeout", ti: reqT, kind: kind, what: what, bytes: f})
+	}
+	long := strings.Repeat("a", 70000)
+	values := []string{"", "-", ".", "f", "f-", "-f", "f.2-abc", "f-0a1b.2c|span|parent", "|", "||", "|||", "a|b|c|d|e", "f.-", ".-", "f..-x", "ffffffffffffffffffff-1",
+		"f.99999999999999999999-x", "\x00", "\xff\xfe", long, "1-2-3|4|5", " ", "%s%n", "f.2-abc|s|p|extra", "-|-|-", "f.2.3.4-x|y|z", "7fffffff.4294967296-id|s|p", "-1.-1-x|s|p"}
+	keys := []string{"STATUS_DYED_KEY", "STATUS_TRACE_KEY", "STATUS_GRID_KEY", "STATUS_SAMPLE_KEY", "STATUS_RESULT_CODE", "STATUS_RESULT_DESC", "STATUS_SETNAME_VALUE", "STATUS_UID"}
+	id := int32(70000)
+	for _, mt := range []int32{0x04, 0x100, 0x104, 0x1ff, -1, -2147483648} {
+		for _, k := range keys {
+			for vi, v := range values {
+				id++
+				fn := []string{"tars_ping", "echo"}[vi%2]
+				add(fmt.Sprintf("status:%s:mt%#x", k, uint32(mt)), fmt.Sprintf("well-formed request, message type %#x, status[%s] = %q", uint32(mt), k, clipStr(v)),
+					&netlab.Request{Version: 1, MessageType: mt, RequestID: id, Servant: "Verif.C05.Obj", Func: fn, Timeout: 3000, Status: map[string]string{k: v}, Context: map[string]string{k: v}})
+			}
+		}
+	}
+	for _, ver := range []int16{-1, 0, 1, 2, 3, 5, 7, 32767} {
+		for _, pt := range []int8{-128, -1, 0, 1, 2, 127} {
+			for _, to := range []int32{-2147483648, -1, 0, 1, 2147483647} {
+				for _, fn := range []string{"", "tars_ping", "echo", long} {
+					id++
+					add("fields", fmt.Sprintf("well-formed request with version %d, packet type %d, timeout %d, function %q", ver, pt, to, clipStr(fn)),
+						&netlab.Request{Version: ver, PacketType: pt, RequestID: id, Servant: []string{"Verif.C05.Obj", "", long}[int(id)%3], Func: fn, Timeout: to, Buffer: []byte{0x0c}})
+				}
+			}
+		}
+	}
+	return cases
+}
+
+func clipStr(s string) string {
+	if len(s) > 40 {
+		return s[:40] + fmt.Sprintf("…(%d bytes)", len(s))
+	}
+	return s
 }
 
 type reporter interface {
@@ -516,6 +567,11 @@ func main() {
 
 // ---------- live phase: a real server process (TCP + UDP, real tars.Protocol) fed hostile packets ----------
 
+type nopPush struct{}
+
+func (nopPush) OnConnect(ctx context.Context, req []byte) []byte { return req }
+func (nopPush) OnClose(ctx context.Context)                      {}
+
 func liveServerMain() {
 	vlib.LimitAddressSpace(12 << 30)
 	p := tars.VerifNewApp().NewProtocol(nopDispatch{}, nil, true)
@@ -529,11 +585,32 @@ func liveServerMain() {
 		fmt.Println("ERR", err)
 		os.Exit(3)
 	}
-	fmt.Printf("READY %s %s\n", tconf.Address, uconf.Address)
-	buf := make([]byte, 16)
+	// the framework's other server-side protocol (tars/protocol/push): it trusts the transport to
+	// hand over complete packages only
+	ptconf := netlab.DefaultServerConf("tcp")
+	puconf := netlab.DefaultServerConf("udp")
+	pp := push.NewServer(nopPush{})
+	if _, err := netlab.StartServer(pp, ptconf); err != nil {
+		fmt.Println("ERR", err)
+		os.Exit(3)
+	}
+	if _, err := netlab.StartServer(pp, puconf); err != nil {
+		fmt.Println("ERR", err)
+		os.Exit(3)
+	}
+	fmt.Printf("READY %s %s %s %s\n", tconf.Address, uconf.Address, ptconf.Address, puconf.Address)
+	in := bufio.NewReader(os.Stdin)
 	for {
-		if _, err := os.Stdin.Read(buf); err != nil {
+		line, err := in.ReadString('\n')
+		if err != nil {
 			os.Exit(0)
+		}
+		if strings.HasPrefix(line, "M") {
+			// live heap after a collection: what the server still holds
+			runtime.GC()
+			var ms runtime.MemStats
+			runtime.ReadMemStats(&ms)
+			fmt.Printf("MEM %d %d\n", ms.HeapAlloc, ms.Sys)
 		}
 	}
 }
@@ -585,8 +662,8 @@ func livePhase(run *vlib.Run, seed int64, thorough bool) {
 			_ = cmd.Process.Kill()
 		}
 	}()
-	var tcpAddr, udpAddr string
-	if _, err := fmt.Fscanf(stdout, "READY %s %s\n", &tcpAddr, &udpAddr); err != nil {
+	var tcpAddr, udpAddr, pushTCP, pushUDP string
+	if _, err := fmt.Fscanf(stdout, "READY %s %s %s %s\n", &tcpAddr, &udpAddr, &pushTCP, &pushUDP); err != nil {
 		run.Inconclusive("live server did not come up: " + err.Error() + " " + vlib.Tail(stderr.String(), 300))
 		return
 	}
@@ -701,7 +778,57 @@ func livePhase(run *vlib.Run, seed int64, thorough bool) {
 			add(proto, "mutated request", d)
 		}
 	}
+	// well-formed requests with hostile field values (a sample of the in-process family)
+	sem := semanticCases(nil)
+	for i := 0; i < len(sem); i += 1 + len(sem)/run.Pick(40, 400) {
+		add([]string{"tcp", "udp"}[i%2], "semantic: "+sem[i].what, sem[i].bytes)
+	}
 	pid := cmd.Process.Pid
+	// ---- a few received bytes must not make the server reserve what they announce ----
+	mem := func() (int64, bool) {
+		if _, err := io.WriteString(stdin, "M\n"); err != nil {
+			return 0, false
+		}
+		var heap, sys int64
+		if _, err := fmt.Fscanf(stdout, "MEM %d %d\n", &heap, &sys); err != nil {
+			return 0, false
+		}
+		return heap, true
+	}
+	if h0, ok := mem(); ok {
+		var held []net.Conn
+		const nConn = 32
+		for i := 0; i < nConn; i++ {
+			for _, a := range []string{tcpAddr, pushTCP} {
+				c, err := net.DialTimeout("tcp", a, 3*time.Second)
+				if err != nil {
+					continue
+				}
+				// a length prefix announcing the maximum package, followed by 4 bytes — and nothing more
+				_, _ = c.Write([]byte{0x00, 0xa0, 0x00, 0x00, 0x10, 0x01, 0x2c, 0x3c})
+				held = append(held, c)
+			}
+		}
+		time.Sleep(300 * time.Millisecond)
+		h1, ok1 := mem()
+		for _, c := range held {
+			c.Close()
+		}
+		if ok1 {
+			grow := h1 - h0
+			run.Set("live_heap_growth_for_64_connections_announcing_10MiB_bytes", grow)
+			run.Eval(1)
+			if grow > int64(len(held))*(1<<20) {
+				run.Violation("over-allocation", "live:announced-length", fmt.Sprintf("%d connections sent 8 bytes each (a length prefix announcing 10 MiB); the server's live heap grew by %d bytes, i.e. %d bytes per connection for 8 bytes of input", len(held), grow, grow/int64(max(len(held), 1))),
+					map[string]interface{}{"connections": len(held), "bytes_sent_per_connection": 8, "heap_before": h0, "heap_after": h1})
+				return
+			}
+		}
+		if err := ping("tcp"); err != nil || !alive() {
+			run.Violation("server-process-killed", "tcp:announced-length", "after 64 connections announcing 10 MiB the server "+fmt.Sprint(err), map[string]interface{}{"stderr_tail": vlib.Tail(stderr.String(), 2500)})
+			return
+		}
+	}
 	for i, it := range items {
 		run.Eval(1)
 		run.Distinct("live|" + it.Proto + "|" + string(it.data[:min(len(it.data), 4096)]) + fmt.Sprint(len(it.data)))
@@ -709,16 +836,18 @@ func livePhase(run *vlib.Run, seed int64, thorough bool) {
 		if it.Proto == "udp" {
 			addr = udpAddr
 		}
-		c, err := net.DialTimeout(it.Proto, addr, 3*time.Second)
-		if err == nil {
-			_ = c.SetWriteDeadline(time.Now().Add(20 * time.Second))
-			_, _ = c.Write(it.data)
-			if it.Proto == "tcp" {
-				// give the server the chance to answer or close, then leave
-				_ = c.SetReadDeadline(time.Now().Add(150 * time.Millisecond))
-				_, _ = c.Read(make([]byte, 4096))
+		for _, a := range []string{addr, map[string]string{"tcp": pushTCP, "udp": pushUDP}[it.Proto]} {
+			c, err := net.DialTimeout(it.Proto, a, 3*time.Second)
+			if err == nil {
+				_ = c.SetWriteDeadline(time.Now().Add(20 * time.Second))
+				_, _ = c.Write(it.data)
+				if it.Proto == "tcp" {
+					// give the server the chance to answer or close, then leave
+					_ = c.SetReadDeadline(time.Now().Add(150 * time.Millisecond))
+					_, _ = c.Read(make([]byte, 4096))
+				}
+				c.Close()
 			}
-			c.Close()
 		}
 		var perr error
 		for _, proto := range []string{"tcp", "udp"} {
